@@ -317,6 +317,7 @@ const smtPrelude = `(set-option :produce-models true)
 (assert (= (b.len NULLB) 0))
 (declare-fun s.len (Str) Int)
 (declare-fun s.at (Str Int) Int)
+(declare-fun b.at (Bytes Int) Int)
 (define-fun s.sys ((s Str)) Bool (and (> (s.len s) 0) (= (s.at s 0) 95))) ; system xattr name: starts with '_'
 (declare-fun s.concat (Str Str) Str)
 (declare-fun s.badxattrkey (Str) Bool) ; contains one of $ . [ ]
